@@ -1462,6 +1462,9 @@ class SpaceManager(SharedSpaceOperations):
                 and not isinstance(func, Formula)):
             # Raise before changing anything if func is malformed
             func = Formula(func, name=cells.name)
+            if func.source is None:
+                raise ValueError(
+                    "cannot retrieve the source code of the formula")
         define = True
         for space in self._get_subs(cells.parent, skip_self=False):
             c = space.cells[cells.name]
